@@ -40,6 +40,12 @@ def sample_params(rng, regime):
         a, A = lu(0.1, 5), lu(0.3, 4)
         b = lu(0.1, 5)
         return dict(zeta=lu(0.1, 10), a=a, A=A, b=b, B=a * A / b)
+    if regime == "p2near":   # |P2| between 1e-9 and 1e-3: both sides of the |P2| < 1e-7 guard of the base integrals
+        a, A = lu(0.1, 5), lu(0.3, 4)
+        b = lu(0.1, 5)
+        zeta = lu(0.1, 10)
+        delta = rng.choice([-1, 1]) * lu(1e-9, 1e-3)
+        return dict(zeta=zeta, a=a, A=A, b=b, B=max((a * A + delta * (zeta + a + b)) / b, 1e-6))
     raise ValueError(regime)
 
 
@@ -106,7 +112,7 @@ def explore(ctx):
         reqs.append("prim %d %d %r %r %r %r %r %d %d %d" % (requested[t], un, P["zeta"], P["a"], P["A"], P["b"], P["B"], N, l1, l2))
         meta.append(dict(P, k=N + un + 2, l1=l1, l2=l2, N=N, un=un, nbase=requested[t], regime=regime))
     # every closed-form case at least once per run, every requested triple with every power in the thorough tier
-    regimes = ["moderate", "moderate", "full", "switch", "smallxy", "p2zero"]
+    regimes = ["moderate", "p2near", "moderate", "full", "switch", "smallxy", "p2zero"]
     for t in trip:
         for un in (0, -1, -2):
             ijk = t[1] * 10000 + t[2] * 100 + t[0] + un + 2
@@ -136,6 +142,7 @@ def explore(ctx):
                 cur.append(l.split())
     corr_bad, n_cmp = [], 0
     paths = {}
+    mismatch = set()     # requests on which model and code disagree: the model's trace says nothing about the code there
     for i, (rb, mb) in enumerate(zip(real_blocks, model_blocks)):
         rd = {x[0]: x for x in rb}
         md = {x[0]: x for x in mb}
@@ -143,11 +150,13 @@ def explore(ctx):
         for key in ("R", "E", "Q", "V"):
             n = len(rd[key])
             n_cmp += n - 1
-            if rd[key][:n] != md[key][:n] and len(corr_bad) < 5:
+            if rd[key][:n] != md[key][:n]:
                 # NaN payloads may differ; compare as numbers
                 same = all(x == y or (len(x) == 16 and len(y) == 16 and unhex(x) != unhex(x) and unhex(y) != unhex(y)) for x, y in zip(rd[key][1:n], md[key][1:n]))
                 if not same:
-                    corr_bad.append({"request": reqs[i], "line": key, "code": rd[key][1:3], "model": md[key][1:3]})
+                    mismatch.add(i)
+                    if len(corr_bad) < 5:
+                        corr_bad.append({"request": reqs[i], "line": key, "code": rd[key][1:3], "model": md[key][1:3]})
     if model_blocks and len(model_blocks) != len(real_blocks):
         corr_bad.append({"what": "model answered %d of %d requests" % (len(model_blocks), len(real_blocks))})
     ctx.obligation("correspondence: Lean radial model = real RadialIntegral, bit for bit (value, estimate, quadrature, base integrals)", not corr_bad, json.dumps(corr_bad[:2]))
@@ -164,7 +173,7 @@ def explore(ctx):
         if not (abs(val - ref) <= tol):
             md = {x[0]: x for x in model_blocks[i]} if i < len(model_blocks) else {}
             f = dict(meta[i], request=reqs[i], returned=val, exact=ref, error=abs(val - ref), allowed=tol)
-            if md:
+            if md and i not in mismatch:
                 f.update(path=md["R"][2], cut=int(md["R"][3]) if md["R"][2] == "quad" else int(md["Q"][3]), nocut_value=unhex(md["N"][1]), nocut_converged=md["N"][2] == "1",
                          argmax=int(md["N"][3]), quad_value=unhex(md["Q"][1]), estimate=unhex(md["E"][1]), finest_value=unhex(md["F"][1]))
             f["what"] = "radial integral (k=%d, l1=%d, l2=%d; zeta=%.6g a=%.6g A=%.6g b=%.6g B=%.6g) returned %r, the defining integral is %r (path: %s)" % (
